@@ -122,6 +122,43 @@ def _sampled(ctx, case):
                           "with preserved addresses left as written, bit %d of the output depends on more than the %d leading bits "
                           "(address %s -> %s; preserved networks %r)" % (i, i, a, fa, cfg.get("pa")))
             return
+    if cfg["fam"] == 4:
+        # the mapping as a READER OF THE OUTPUT sees it: through the text function, on non-mask, non-preserved
+        # addresses - including "trap" originals whose image is mask-shaped, next to their nearest neighbours
+        import ipaddress
+
+        nc = load.nc()
+        tanon = ipgen.build(cfg)
+        sub = [a for a in addrs[:300]]
+        try:
+            for m in rng.sample(ipgen.MASKS[2:-2], 6):
+                x = ipgen.build(cfg).deanonymize(m)
+                sub += [x, x ^ (1 << B) if B < 32 else x, x ^ (1 << min(31, B + 1))]
+        except Exception:
+            pass
+        tt = FlipTable(L, B)
+        timg = {}
+        for a in sub:
+            if ipgen.is_mask_ref(a) or any(lo <= a <= hi for lo, hi in pranges):
+                continue
+            out = nc.ip.anonymize_ip_addr(tanon, str(ipaddress.IPv4Address(a)))
+            try:
+                fa = int(ipaddress.IPv4Address(out))
+            except ValueError:
+                ctx.violation(dict(case, addrs=[a]), "text-image-not-an-address", "anonymize_ip_addr(%r) = %r" % (str(ipaddress.IPv4Address(a)), out))
+                return
+            ctx.count("text_level_observations")
+            if fa in timg and timg[fa] != a:
+                ctx.violation(dict(case, addrs=[a, timg[fa]]), "collision:text-level",
+                              "through the text function %s and %s both become %s" % (ipaddress.IPv4Address(a), ipaddress.IPv4Address(timg[fa]), out))
+                return
+            timg[fa] = a
+            tt.observe(a, fa)
+        if tt.conflict is not None:
+            i, a, fa = tt.conflict
+            ctx.violation(dict(case, addrs=[a]), "flip-not-function-of-prefix:text-level",
+                          "through the text function, bit %d of the image of %s depends on more than its %d leading bits" % (i, ipaddress.IPv4Address(a), i))
+            return
     if ft.suffix_bad is not None and B:
         a, fa = ft.suffix_bad
         # host bits differ -> two addresses sharing all leading bits map apart / together wrongly
